@@ -385,7 +385,7 @@ func runEncode(c *Case, tr *Trace, parse bool) {
 	}
 	if parse && !failed {
 		rec := &RefRecorder{}
-		err := api.parse(append([]byte(nil), sk.all...), rec)
+		err := api.parse(exact(sk.all), rec)
 		cl, msg := errClass(err)
 		ev := rec.Events
 		if ev == nil {
@@ -412,7 +412,7 @@ func runTranscode(c *Case, tr *Trace) {
 	case "write":
 		p := src.newParser(enc)
 		for _, ch := range chunksOf(doc, c.Cuts) {
-			if _, err = p.Write(append([]byte(nil), ch...)); err != nil {
+			if _, err = p.Write(exact(ch)); err != nil {
 				break
 			}
 		}
@@ -673,11 +673,11 @@ func runFault(c *Case, tr *Trace) {
 			var err error
 			switch entry {
 			case "parse":
-				err = api.parse(append([]byte(nil), doc...), rec)
+				err = api.parse(exact(doc), rec)
 			case "reader":
-				_, err = api.parseReader(&chunkReader{chunks: chunksOf(append([]byte(nil), doc...), c.Cuts)}, rec)
+				_, err = api.parseReader(&chunkReader{chunks: chunksOf(exact(doc), c.Cuts)}, rec)
 			case "decbytes":
-				d := api.newBytesDecoder(append([]byte(nil), doc...), rec)
+				d := api.newBytesDecoder(exact(doc), rec)
 				for i := 0; i < len(doc)+3 && err == nil; i++ {
 					err = d.Next()
 				}
@@ -858,9 +858,9 @@ func runReuse(c *Case, tr *Trace) {
 		idle = depthsOf(p)
 		parse := func(p parserI, d []byte) error {
 			if mode == "parse" {
-				return p.Parse(append([]byte(nil), d...))
+				return p.Parse(exact(d))
 			}
-			if _, err := p.Write(append([]byte(nil), d...)); err != nil {
+			if _, err := p.Write(exact(d)); err != nil {
 				return err
 			}
 			if f, has := p.(interface{ VerifFinalize() error }); has {
@@ -901,9 +901,9 @@ func runReuse(c *Case, tr *Trace) {
 		all = append(all, probe...)
 		mk := func(data []byte, rec *RefRecorder) decoderI {
 			if mode == "bytes" {
-				return api.newBytesDecoder(append([]byte(nil), data...), rec)
+				return api.newBytesDecoder(exact(data), rec)
 			}
-			return api.newDecoder(&planReader{data: append([]byte(nil), data...), plan: c.Plan, eofWith: c.EOFWith}, c.Buf, rec)
+			return api.newDecoder(&planReader{data: exact(data), plan: c.Plan, eofWith: c.EOFWith}, c.Buf, rec)
 		}
 		rec := &RefRecorder{}
 		d := mk(all, rec)
